@@ -182,6 +182,8 @@ def g_cmd(c):
         if name == "axes":
             return "SetBounds %s %s %s (Fin 0) (Fin 0)" % (bn, g_pt(lo), g_pt(hi))
         return "SetBounds %s unknown unknown %s %s" % (bn, g_x(lo), g_x(hi))
+    if op == "set_transform":
+        return "SetTransform (mkaff %s)" % " ".join(g_Q(Fraction(v)) for v in c[1])
     if op == "add_hook":
         return "AddHook %s" % g_hook(c[1])
     if op == "remove_hook":
